@@ -14,6 +14,8 @@ CONSTANTS Codecs,          \* subset of {"v1", "v2"}
           SegSizes,        \* segment sizes in bytes
           Sizes,           \* payload sizes offered
           MaxRec,          \* entries appended before the crash
+          MinRec,          \* ... at least (multi-segment configurations: only logs with closed segments in front of the current one)
+          MinSynced,       \* ... of which at least the first MinSynced are synced (0 = any synced offset)
           IdxStates,       \* index-file states offered for closed segments
           DmgNames,        \* damage kinds offered, by name (see KindTable)
           TearWithDamage,  \* combine damage with torn/absent records (FALSE: damage only on otherwise intact images)
@@ -53,7 +55,7 @@ Pre == {[codec |-> c, seg |-> sg, sizes |-> HFinal(h) \o tl, synced |-> sy, comm
            c \in Codecs, sg \in SegSizes, h \in Hists, tl \in Seqs(Sizes, MaxRec), sy \in -1..(MaxRec - 1), cm \in -1..(MaxRec - 1)}
 
 Init == /\ phase = "pre" /\ out = NoOut
-        /\ img \in {p \in Pre : /\ N(p) <= MaxRec /\ p.synced < N(p) /\ p.commit <= p.synced
+        /\ img \in {p \in Pre : /\ N(p) <= MaxRec /\ N(p) >= MinRec /\ p.synced + 1 >= MinSynced /\ p.synced < N(p) /\ p.commit <= p.synced
                                  /\ \A i \in 1..N(p) : H(p) + p.sizes[i] <= p.seg
                                  /\ HistOK(p)}
 
@@ -112,7 +114,7 @@ Done == phase = "recovered" /\ Modelled(img)
 \* the model of the implementation satisfies the property (known findings attributed when Guarded)
 ModelSatisfiesProperty == Done => Judge(img, out, Guarded) # "bad"
 \* the conjuncts of the property by name
-NoPanic == Done => out.res \in {"ok", "error"} /\ out.pres \in {"none", "ok", "error"}
+NoPanic == Done => out.res \in {"ok", "error", "hole"} /\ out.pres \in {"none", "ok", "error"}
 PureCrashRecovers == (Done /\ ~Damaged(img) /\ ~IdxDamaged(img)) =>
                          /\ out.res = "ok" /\ Len(out.ents) >= img.synced + 1
                          /\ out.ents = Ids(Len(out.ents))
@@ -127,6 +129,9 @@ NothingResurrected == Done => /\ \A k \in 1..Len(out.ents) : ~IsStaleId(out.ents
 NoResidue == FinalResidue(img) = {}
 \* a recorded finding never hides anything but its own symptom
 FindingsNarrow == (Done /\ Kf(img) # {} /\ ~RecoveryOk(img, out)) => Symptom(img, out)
+\* a reopened WAL never serves a log with a gap: whatever it claims between FirstOffset and LastOffset is readable or
+\* its damage is reported (the zeroed size field in a closed segment with a lost index is the recorded exception)
+NoHole == (Done /\ ~KfRoZero(img)) => out.res # "hole"
 \* every image handed to the harness is in the domain of the crash model
 ImagesWellFormed == phase # "pre" => ImageOK(img)
 
